@@ -155,10 +155,13 @@ static ResaveOut resaveHistory(const json& plan, Ctx& ctx, bool withFault, bool*
 	out.isOB = nif->GetHeader().GetVersion().IsOB();
 	uint64_t salt = ju64(plan, "battery_salt", 1);
 	bool queries = jbool(plan, "queries", true);
+	// save_first: the first save happens before any query, so that the later saves (with read-only queries in between) are
+	// compared with the output of a model no getter has touched yet
+	bool saveFirst = jbool(plan, "save_first", false);
 	setStage("Q0");
 	out.qt.emplace_back();
-	out.q.push_back(queries ? batteryDigest(*nif, ctx, salt, &out.qt.back(), false) : 0);
-	if (queries) {
+	out.q.push_back(queries && !saveFirst ? batteryDigest(*nif, ctx, salt, &out.qt.back(), false) : 0);
+	if (queries && !saveFirst) {
 		// the getters themselves fill caches; a second pass before any save tells their effect from the save's
 		BatteryTrace t2;
 		uint64_t again = batteryDigest(*nif, ctx, salt, &t2, false);
@@ -223,6 +226,7 @@ void profile_resave(const json& plan, Ctx& ctx) {
 		}
 		if (jbool(plan, "queries", true)) {
 			size_t first = raw ? 0 : 1; // default options sort/prune/recompute bounds on the first save: documented effect
+			if (jbool(plan, "save_first", false)) { first = 1; ctx.probe("first_save_before_any_query"); }
 			if (clean.isOB) first = 1;  // Oblivion: the first save materialises the tangent-space extra data block (documented in FinalizeData)
 			for (size_t k = first + 1; k < clean.q.size(); k++)
 				if (clean.q[k] != clean.q[first] && getenv("NIFSIM_DEBUG")) {
